@@ -105,6 +105,11 @@ def oracle(result):
         if out["k"] != "Call":
             bad.append(("C19:odd", f"step {i}: {out}"))
             continue
+        if out["r"] == "Raised" and out["e"] not in ("NotFound", "AsyncErr", "RuntimeErr"):
+            bad.append(("C19:unexpected-exception", f"step {i}: the injected call raised {out['e']}, which no explicit "
+                        f"get_resource(_nowait) call can raise"))
+        if out["r"] == "odd":
+            bad.append(("C19:odd-call", f"step {i}: {out.get('detail')}"))
         if out["r"] == "body-ran-then-raised":
             bad.append(("C19:body-ran-before-failure", f"step {i}: the body ran although the call raised {out['e']}"))
         if out["r"] == "Body":
